@@ -29,6 +29,7 @@ func runC02(c *Ctx) {
 		return
 	}
 	c.W = w
+	mirror := StartMirror(c, w, "r1")
 	ns := g.Range(2, 5)
 	tc := TrafficCfg{NSess: ns, OpsPerSess: g.Range(4, 12), Faults: g.Chance(2, 3), Timeouts: true, Cancels: true, Meta: g.Chance(1, 3), Kills: g.Chance(1, 5)}
 	ops := GenTraffic(g, tc)
@@ -231,6 +232,7 @@ func runC02(c *Ctx) {
 	if interesting > 0 {
 		c.Res.NonTrivial = true
 	}
+	mirror.Check(c, w)
 	CloseAll(c, w, false)
 }
 
@@ -249,6 +251,7 @@ func runC08(c *Ctx) {
 		return
 	}
 	c.W = w
+	mirror := StartMirror(c, w, "r1")
 	ns := g.Range(3, 6)
 	// half of the runs have slow readers (stall, sleep, resume; tiny queues):
 	// what such a session receives may have gaps, but never a reordering
@@ -293,6 +296,7 @@ func runC08(c *Ctx) {
 	}
 	CheckOrderingLossy(c, clients, lossy)
 	CheckDisclosure(c, clients, rc.AllowDisclose)
+	mirror.Check(c, w)
 	if c.S.MultiEnabled > 0 {
 		c.Res.NonTrivial = true
 	}
